@@ -394,7 +394,7 @@ LINK_WORDS = ['see', ' ', 'http://example.com', 'https://a.b/c?d=e#f', 'www.x.or
               'http://a\x00b/', 'http://[::1]/', 'http://h:port/', 'http://h:99999999999999999999/', '(http://a.b/(c))',
               'www.', 'x-y://z', 'http:///', 'http://h:8x', ',', '.', '!', '\n', 'mailto:a@b.c', 'http://a..b/', 'HTTP://A/',
               'http://\xe9.fr/', 'git+ssh://h/p', 'http://h:-1/', 'http://h:+1/', 'http://h: 1/', '&amp;', '<', '>', 'www.a:b',
-              'http://[::zz]/', 'http://[1.2.3.4]/', 'http://user@[::1]:80/', 'a://b', '1://2', '_://x', 'www.x.y:0x10', 'xn--.-//:']
+              'http://[::zz]/', 'http://[1.2.3.4]/', 'http://user@[::1]:80/', 'a://b', 'http://e\u0301:\u212a@h/', '1://2', '_://x', 'www.x.y:0x10', 'xn--.-//:']
 
 
 def pick_text(rng, maxparts=3):
@@ -645,7 +645,8 @@ class C06(Property):
                   'http://h/?=', 'http://h/?&&', 'http://h/?a;b', 'http://h/#a%0Ab', 'http://h/#\n', 'http://h/p\nq?r\ns#t\nu',
                   'http://xn--a.com/', 'http://a\x00b/', 'http://[::1\x00]/', 'http://a..b/', 'http://' + 'a' * 64 + '.com/',
                   'http://h:80/', 'http://h:0/', 'http://h:/', 'http://h:-1/', 'http://h:+5/', 'http://h: 5 /', 'http://h:1_0/',
-                  'http://h:_1/', 'http://h:1__0/', 'http://h:1_/', 'http://h:\u0663/', 'http://h:0x10/', 'http://h:1e3/',
+                  'http://h:_1/', 'http://h:1__0/', 'http://h:1_/', 'http://h:\u0663/', 'http://h:0x10/', 'http://h:1e3/', 'http://h:\x1c1/', 'http://h:\x0b1\x0c/', 'http://h:1\x85/',
+                  'http://h:\t+12_3 /', 'http://h:--1/', 'http://h:1 2/',
                   'http:a', 'http:/a', 'http:////a', 'http:', 'foo:', 'foo://', 'urn:a:b', 'urn://x/y', 'mailto:a@b', 'a:b:c',
                   'a%3Ab', './a:b', '//h/p', '/p', '?q', '#f', '//@/x', '//u@/x', '//h:x', 'http://h?a', 'http://[::1]:80/',
                   'http://[::1]x:80', 'http://[v1.x]/', 'http://[v1.a:b]/', 'http://[::1', 'http://::1]/', 'http://[]/',
@@ -667,10 +668,22 @@ class C06(Property):
             for toks in itertools.product(self.DELIM_PIECES, repeat=n):
                 yield {'k': 'p', 't': ''.join(toks)}
 
+    def decoded_delimiter_family(self):
+        """relative references whose first segment decodes to something that looks like a scheme / authority
+        marker, followed by every kind of continuation"""
+        firsts = ['a%3A', '+%3A', 'a%3Ab', '%3A', 'a.b%3A', 'http%3A', 'a%3A%3A', '1%3A', 'a%3a']
+        conts = ['', '/', '//', '//.', '//@', '//h', '//h:x', '//h:1', '//[', '//:', '//[::1]', '/..', '?q', '#f', '//..',
+                 '//a..b', '//' + 'a' * 64, '//@h', '//u@', '//%00', '///', '////x', '//h/p?q#f', ':', '::', '@']
+        for f in firsts:
+            for c in conts:
+                yield {'k': 'p', 't': f + c}
+
     def cases(self, budget_s):
         rng = self.rng
         for t in self.EDGE_TEXTS:
             yield {'k': 'p', 't': t}
+        for c in self.decoded_delimiter_family():
+            yield c
         for c in self.delim_small():
             yield c
         for c in self.matrix():
@@ -781,7 +794,7 @@ class C06(Property):
                         if isinstance(it, str):
                             items.append({'t': it})
                         else:
-                            items.append({'u': it.to_text()})
+                            items.append({'u': it.to_text(), 'ui': [it.username, it.password]})   # 'ui': for the NFC pairs
                     ms = []
                     prev = 0
                     for m in U._FIND_ALL_URL_RE.finditer(case['t']):
@@ -818,7 +831,7 @@ class C06(Property):
             t = case['t']
             if 'xn--' in t or _exotic_int_chars(t) or not isinstance(obs, dict) or 'matches' not in obs:
                 return None
-            toks = ['L', str(case['wt']), cps(case['ds']), cps_list(case['schemes']), cps(obs['tail'])]
+            toks = ['L', nfc_table(case, obs), str(case['wt']), cps(case['ds']), cps_list(case['schemes']), cps(obs['tail'])]
             for pre, m in obs['matches']:
                 toks += [cps(pre), cps(m)]
             return ' '.join(toks)
